@@ -91,11 +91,16 @@ func vName(max int) string {
 	return s
 }
 
-// vFixName: a string of exactly n bytes over {'0', 'a'}
+// vFixName: a string of exactly n bytes over {'0', 'a'}, or (parameter
+// "alpha" = 1) over all printable ASCII characters
 func vFixName(n int) string {
 	s := vStr(n)
 	for i := 0; i < len(s); i++ {
-		vAssume(s[i] == '0' || s[i] == 'a')
+		if vParam("alpha", 0) == 1 {
+			vAssume(s[i] >= 0x20 && s[i] < 0x7f)
+		} else {
+			vAssume(s[i] == '0' || s[i] == 'a')
+		}
 	}
 	return s
 }
